@@ -297,7 +297,8 @@ class Flow:
                 info = None
             if info is not None and not info[1]:
                 return fs(("ext", "builtins.dict", (T(info[0]),), ()))
-            return fs(("dict", ((T(e.key), T(e.value)),)))
+            # the order of the entries is the order of the iteration: keep the iterable as the order carrier
+            return fs(("inloop", fs(("dict", ((T(e.key), T(e.value)),))), T(e.generators[0].iter)))
         if isinstance(e, ast.Starred):
             return fs(("elem", T(e.value)))
         if isinstance(e, ast.IfExp):
